@@ -616,11 +616,15 @@ func (r *TypeClassSummonContext) lookupTypeClassInstanceTypePkg(ctx CurrentConte
 			ti := metafp.GetTypeInfo(obj.Type())
 			rhsType := ti.ResultType()
 			if rhsType.IsInstanceOf(ctx.tc.TypeClass) {
+				tci := metafp.AsTypeClassInstance(req.TypeClass, obj).Get()
+				// binds the type parameters of an instance function of a generic type to the type arguments of f
+				tci = tci.Check(f).OrElse(tci)
+
 				ins := DefinedInstance{
 					instanceOf: f,
 					pk:         f.Pkg,
 					name:       name,
-					instance:   metafp.AsTypeClassInstance(req.TypeClass, obj).Get(),
+					instance:   tci,
 					local:      false,
 
 					// 함수의 아규먼트는 Eq 가 포함 되어 있음.
